@@ -225,7 +225,7 @@ def eval_case(case: dict) -> dict:
         names = [f[0] for f in res['files']]
         want = shellbuild.expected_filenames(case['cfg'])
         out['counts']['complete_file_sets'] = 1
-        if names != want or any(not isinstance(f[1], str) or not f[1].strip()
+        if sorted(names) != sorted(want) or any(not isinstance(f[1], str) or not f[1].strip()
                                 for f in res['files']):
             out['violations'].append({'mechanism': 'partial-or-wrong-file-set',
                                       'detail': {'got': names, 'want': want}, 'case': case})
